@@ -31,6 +31,8 @@ package core
 
 //@ functype ProxyFunc
 //@   modifies *
+//@   may-panic
+//@   onpanic forall e *domain.Endpoint :: ghost(e).gauge == old(ghost(e).gauge)
 //@   records attempts = old(attempts) + 1
 //@   records lastAttempted = endpoint
 //@   records lastAttemptErr = err
@@ -61,6 +63,7 @@ package core
 //@   property C02 C04 C19
 //@   requires endpoint != nil
 //@   modifies *
+//@   onpanic forall e *domain.Endpoint :: ghost(e).gauge == old(ghost(e).gauge)
 //@   ensures attempts == old(attempts) + 1 && lastAttempted == endpoint && lastAttemptErr == res
 //@   ensures res != nil && (connErr(res) || circuitOpen(res)) ==> ghost(w).started == old(ghost(w).started)
 //@   ensures forall e *domain.Endpoint :: ghost(e).gauge == old(ghost(e).gauge)
